@@ -448,6 +448,10 @@ def corrupt_value(v):
     if isinstance(v, int):
         return v + 1
     if isinstance(v, str):
+        # tribool answers: an indeterminate answer is corrupted into a definite one (alternating)
+        if v == "U":
+            corrupt_value.flip = not getattr(corrupt_value, "flip", False)
+            return "T" if corrupt_value.flip else "F"
         return {"T": "F", "F": "T", "": "SymEngineException"}.get(v, "")
     if L.is_term(v):
         if v["k"] in ("Int", "Rat"):
